@@ -346,6 +346,8 @@ pub struct Trace {
     pub data: Vec<u8>,
     /// the device image the trace starts from (None = all zero)
     pub base: Option<Vec<u8>>,
+    /// sequence numbers of device calls that were made to fail
+    pub fault_seqs: Vec<u64>,
 }
 
 fn field<'a>(toks: &'a [&'a str], k: &str) -> &'a str {
@@ -390,7 +392,12 @@ pub fn load_trace(path: &str) -> Option<Trace> {
             _ => {}
         }
     }
-    Some(Trace { blocks, ttl, evs, data, base: None })
+    let fault_seqs = text
+        .lines()
+        .filter(|l| l.contains("fault=Fail"))
+        .filter_map(|l| l.split(' ').next().and_then(|x| x.parse().ok()))
+        .collect();
+    Some(Trace { blocks, ttl, evs, data, base: None, fault_seqs })
 }
 
 /// per key: the accepted states in order; state = (invoke seq, return seq, Some((ts, vh)) | None)
@@ -411,11 +418,19 @@ pub fn key_states(t: &Trace) -> States {
 
 /// acknowledgements: (invoke seq, return seq) of flush()==Ok and clean close
 pub fn acks(t: &Trace) -> Vec<(u64, u64)> {
+    // a clean close acknowledges only on a healthy device: Drop cannot report an error, so a close
+    // during which a device call failed acknowledges nothing
+    let unhealthy = |inv: u64, ret: u64| {
+        t.evs.iter().any(|e| match e {
+            Ev::F { seq, ok: false } => *seq > inv && *seq < ret,
+            _ => false,
+        }) || t.fault_seqs.iter().any(|s| *s > inv && *s < ret)
+    };
     t.evs
         .iter()
         .filter_map(|e| match e {
             Ev::Flush { inv, ret, ok: true } => Some((*inv, *ret)),
-            Ev::Close { inv, ret } => Some((*inv, *ret)),
+            Ev::Close { inv, ret } if !unhealthy(*inv, *ret) => Some((*inv, *ret)),
             _ => None,
         })
         .collect()
@@ -888,6 +903,159 @@ pub fn run_recrash(opts: &Opts) -> i32 {
         rep += r;
     }
     std::fs::write(format!("{dir}/stats.json"), format!("{{\"first_level_images_whose_recovery_wrote\": {rep}}}")).unwrap();
+    println!("cases={total}");
+    0
+}
+
+/// reads keep returning the latest accepted value from memory (C09): every GET of the trace vs
+/// the last accepted put/delete of that key that returned before the GET was invoked
+fn reads_verdict(t: &Trace) -> Option<String> {
+    for e in &t.evs {
+        if let Ev::Get { inv, key, res } = e {
+            let mut expect = "notfound".to_string();
+            for o in &t.evs {
+                if let Ev::Op { ret, del, key: k, vh, ok: true, .. } = o {
+                    if k == key && ret < inv {
+                        expect = if *del { "notfound".to_string() } else { vh.clone() };
+                    }
+                }
+            }
+            if *res != expect {
+                return Some(format!("FAIL read-during-device-failure-returned-wrong-value key={key} got={res} expected={expect}"));
+            }
+        }
+    }
+    None
+}
+
+/// engine `fault` (C09): single faults at every device call (before / after), pairs, persistent
+/// failure from a point, with and without healing; forced pwrite path.
+pub fn run_fault(opts: &Opts) -> i32 {
+    let dir = opts.str("out", "/verif/.build/cases/fault");
+    let seed = opts.u64("seed", 1);
+    let shards = opts.u64("shards", 16);
+    let per = opts.u64("n", if opts.thorough() { 6 } else { 1 });
+    let nfaults = opts.u64("faults", if opts.thorough() { 60 } else { 5 });
+    let keep = format!("{dir}/images");
+    std::fs::create_dir_all(&keep).unwrap();
+    let mut handles = Vec::new();
+    for sh in 0..shards {
+        let dir = dir.clone();
+        let keep = keep.clone();
+        handles.push(std::thread::spawn(move || {
+            let mut out = Out::new(&dir, &format!("s{sh}"));
+            let mut rng = Rng::new(seed.wrapping_mul(11_400_714_819).wrapping_add(sh));
+            let mut kinds = BTreeMap::<String, u64>::new();
+            for w in 0..per {
+                let wseed = rng.next() % 1_000_000_007;
+                let blocks = *rng.pick(&[64u64, 96]);
+                let ops = rng.range(15, 40);
+                let common = |path: &str| {
+                    vec![
+                        "tracegen".to_string(),
+                        format!("path={path}"),
+                        format!("seed={wseed}"),
+                        format!("blocks={blocks}"),
+                        format!("ops={ops}"),
+                        "sync=1".to_string(),
+                        "close=1".to_string(),
+                    ]
+                };
+                // fault-free run: how many device calls does this workload make?
+                let base0 = format!("{keep}/f{sh}_{w}_base.feox");
+                let g = run_child(&common(&base0), 90);
+                let ncalls = match g.as_deref().and_then(|_| load_trace(&base0)) {
+                    Some(t) => t.evs.iter().filter(|e| matches!(e, Ev::W { .. } | Ev::F { .. })).count() as u64,
+                    None => {
+                        out.emit3("note fault-base-failed", "note", "FAIL workload-child-failed-or-hung");
+                        continue;
+                    }
+                };
+                let _ = std::fs::remove_file(format!("{base0}.data"));
+                for fi in 0..nfaults {
+                    let path = format!("{keep}/f{sh}_{w}_{fi}.feox");
+                    let mut args = common(&path);
+                    let kind = rng.below(10);
+                    let label;
+                    if kind < 5 {
+                        let i = rng.below(ncalls);
+                        let k = if rng.chance(1, 2) { "before" } else { "after" };
+                        args.push(format!("faults={i}:{k}"));
+                        label = format!("single-{k}");
+                    } else if kind < 7 {
+                        let i = rng.below(ncalls);
+                        let j = i + 1 + rng.below(6);
+                        args.push(format!("faults={i}:{},{j}:{}", if rng.chance(1, 2) { "before" } else { "after" }, if rng.chance(1, 2) { "before" } else { "after" }));
+                        label = "pair".to_string();
+                    } else if kind < 9 {
+                        let i = rng.below(ncalls);
+                        args.push(format!("persist_from={i}"));
+                        args.push(format!("heal_at={}", rng.range(ops / 2, ops)));
+                        label = "persistent-then-healed".to_string();
+                    } else {
+                        args.push(format!("persist_from={}", rng.below(ncalls)));
+                        label = "persistent".to_string();
+                    }
+                    let g = run_child(&args, 120);
+                    if g.as_deref().map_or(false, |s| s.starts_with("tracegen-open-error")) {
+                        // the failure hit the creation of the device: reported as an error, nothing to recover
+                        out.emit3(&format!("note fault-run {label} open-reported-error"), "note", "ok");
+                        continue;
+                    }
+                    if g.as_deref().map_or(true, |s| !s.starts_with("tracegen-done")) {
+                        let why = g.unwrap_or_default();
+                        let verdict = if why.contains("TIMEOUT") { "FAIL workload-hung-under-device-failure" } else { "FAIL workload-child-died-under-device-failure" };
+                        out.emit3(&format!("note fault-run {label} {}", why.replace(' ', "_")), "note", verdict);
+                        continue;
+                    }
+                    let Some(t) = load_trace(&path) else { continue };
+                    *kinds.entry(label.clone()).or_default() += 1;
+                    let states = key_states(&t);
+                    let ack = acks(&t);
+                    let nev = t.evs.iter().filter(|e| matches!(e, Ev::W { applied: true, .. } | Ev::F { .. })).count();
+                    out.emit3(&format!("monitor {path}"), &format!("accepted events={nev}"), "ok");
+                    // reads during the failure; healing
+                    if let Some(v) = reads_verdict(&t) {
+                        out.emit3(&format!("note reads {label}"), "note", &v);
+                    }
+                    let healed_at = t.evs.iter().find_map(|e| if let Ev::Heal { seq } = e { Some(*seq) } else { None });
+                    if let Some(h) = healed_at {
+                        // the last flush issued after the heal must succeed unless the device was poisoned
+                        let last = t.evs.iter().rev().find_map(|e| match e {
+                            Ev::Flush { inv, ok, .. } if *inv > h => Some(*ok),
+                            _ => None,
+                        });
+                        let poisoned = t.evs.iter().any(|e| matches!(e, Ev::Op { res, .. } if res == "indeterminate"))
+                            || std::fs::read_to_string(format!("{path}.trace")).map_or(false, |s| s.contains("res=indeterminate"));
+                        if last == Some(false) && !poisoned {
+                            out.emit3(&format!("note heal {label}"), "note", "FAIL flush-still-fails-after-the-device-healed");
+                        }
+                    }
+                    // crash images along the faulted history + the device as it stands
+                    for (pi, plan) in plans(&t, &mut rng, 6).into_iter().enumerate() {
+                        let img = build_image(&t, plan.durable_upto, &plan.extra);
+                        let ipath = format!("{keep}/f{sh}_{w}_{fi}_{pi}.img");
+                        std::fs::write(&ipath, &img).unwrap();
+                        let (now, recsize, line) = probe_image(&ipath, &format!("{ipath}.probe"), false, false);
+                        let verdict = crash_verdict(&t, &states, &ack, plan.cut, &line);
+                        out.emit3(&format!("open {ipath} ro=0 allow=0 ttl=0 now={now} recsize={recsize} fault={label} plan={}", plan.label), &line, &verdict);
+                    }
+                }
+            }
+            (out.finish(), kinds)
+        }));
+    }
+    let mut total = 0;
+    let mut all = BTreeMap::<String, u64>::new();
+    for h in handles {
+        let (n, k) = h.join().unwrap();
+        total += n;
+        for (a, b) in k {
+            *all.entry(a).or_default() += b;
+        }
+    }
+    let stats: Vec<String> = all.iter().map(|(k, v)| format!("\"{k}\": {v}")).collect();
+    std::fs::write(format!("{dir}/stats.json"), format!("{{{}}}", stats.join(", "))).unwrap();
     println!("cases={total}");
     0
 }
